@@ -12,7 +12,7 @@ PLAN = dict(
          "or puts to the two join ports from different threads overlapped, or a decrement overlapped a put / a forward, or an item was put while the rejecting successor was "
          "busy and was delivered to it later (rejection then pull); distinct = hash of program text + schedule descriptor",
     assumptions=SC_TSO + ["buffer_node::try_get (and the pull of a rejecting successor) while a reservation of the same buffer_node is outstanding is excluded from the default "
-                          "domain (known defect BUFFER-GET-RESERVED, exercised by the witness leg only)",
+                          "domain of the main legs; the leg buffer-get-under-reservation generates exactly that shape (repaired defect BUFFER-GET-RESERVED, /repo 16d1715) and must stay quiet",
                           "key_matching join: a try_put whose key is already waiting in the port returns false but replaces the stored message; the oracle accepts either message "
                           "in the tuple (counted as key_duplicate_replaced)",
                           "priority_queue_node: only 'a strictly higher-priority item was surely buffered during the whole hand-out interval' is a violation",
@@ -22,11 +22,13 @@ PLAN = dict(
     tiers=dict(
         quick=[det("rel", H, "cs-rel", 16, 85, 4, tso=True, time_cap=28),
                det("dbg", H, "cs-dbg", 16, 35, 4, tso=True, time_cap=22),
-               det("witness-buffer-get-reserved", H, "cs-rel", 3, 120, 4, tso=False, time_cap=15, args=["--witness"])],
+               det("buffer-get-under-reservation", H, "cs-rel", 4, 120, 4, tso=False, time_cap=15, args=["--witness"]),
+               tsan("C15", 4, 80)],
         thorough=[det("rel", H, "cs-rel", 16, 2200, 5, tso=True, time_cap=330),
                   det("dbg", H, "cs-dbg", 16, 700, 5, tso=True, time_cap=240),
                   det("enum-conflict", H, "cs-rel", 16, 40, 2, tso=True, time_cap=120, enum="conflict", enum_cap=120),
-                  det("witness-buffer-get-reserved", H, "cs-rel", 4, 150, 4, tso=False, time_cap=25, args=["--witness"])],
+                  det("buffer-get-under-reservation", H, "cs-rel", 16, 600, 4, tso=False, time_cap=60, args=["--witness"]),
+               tsan("C15", 16, 600)],
     ),
 )
 TEXT = dict(
